@@ -5,7 +5,7 @@ CONSTANTS
   GraphLo = 33 GraphHi = 126 MaxBits = 64
   Apis = {"value"}
   TextApis = {"cint", "number", "string"}
-  TextDsts = {"b", "y", "n", "q", "i", "u", "x", "t", "l", "f", "d", "e"}
+  TextDsts = {"b", "y", "q", "i", "x", "t", "l", "f", "d"}
   Bases = {0, 16}
   Alphabet = {32, 45, 48, 49, 57, 120, 102}
   TextLen = 3
